@@ -15,9 +15,11 @@ VARIABLES nchecked
 vars == <<nchecked>>
 Init == nchecked = 0
 
-RoundTrip(orig, back, err, tooDeep) ==
+\* wellFormed: the text save_variable returned is a proper string (its length is the length of its text, so that
+\* appending to it - save_variable(x) + "\n" - appends)
+RoundTrip(orig, back, err, tooDeep, wellFormed) ==
   /\ IF tooDeep THEN err = "save"            \* beyond the nesting limit: an LPC error from save
-     ELSE err = "" /\ back = orig            \* equal value, equal type tags
+     ELSE err = "" /\ back = orig /\ wellFormed   \* equal value, equal type tags
   /\ nchecked' = nchecked + 1
 
 ObjectRoundTrip(orig, back, err, staticKept, obrefKept) ==
